@@ -193,6 +193,14 @@ static const void *body(MD5_CTX *ctx, const void *data, unsigned long size)
 		c += saved_c;
 		d += saved_d;
 
+#ifdef XCRYPT_VERIF
+		{
+			uint32_t verif_in[4] = { saved_a, saved_b, saved_c, saved_d };
+			uint32_t verif_out[4] = { a, b, c, d };
+			VERIF_EV("md5", verif_in, sizeof verif_in, ptr, 64,
+			    verif_out, sizeof verif_out);
+		}
+#endif
 		ptr += 64;
 	} while (size -= 64);
 
